@@ -173,6 +173,15 @@ theorem sinv_window (cfg : Cfg) (s : State) (c' : Circuit) (h : SInv cfg s) (hc 
   · simp only; rw [h3]; exact h.trTime
   · simp only; rw [h3]; exact h.clock
 
+/-- the invariant speaks only of the circuit, the running callers, the trace and the clock: fresh callers and
+callers waiting for their fallback are outside it -/
+theorem sinv_congr (cfg : Cfg) (s s' : State) (h : SInv cfg s) (h1 : s'.circ = s.circ) (h2 : s'.running = s.running)
+    (h3 : s'.log = s.log) (h4 : s'.now = s.now) : SInv cfg s' := by
+  cases s; cases s'
+  simp only at h1 h2 h3 h4
+  subst h1 h2 h3 h4
+  exact ⟨h.circ, h.trials, h.eps, h.calls, h.shield, h.target, h.trTime, h.clock⟩
+
 theorem eraseP_subset (l : List Caller) (c : Nat) : ∀ r ∈ l.eraseP (·.c == c), r ∈ l :=
   fun _ hr => List.mem_of_mem_eraseP hr
 
@@ -372,7 +381,7 @@ def admitted (cfg : Cfg) (s : State) (f : Fresh) : State :=
   { now := s.now, circ := acq.1, fresh := s.fresh.eraseP (·.c == f.c),
     running := s.running ++ [{ c := f.c, k := s.serial, start := s.now, doneAt := s.now + f.sc.lat, out := f.sc.out,
                                tag := f.tag, ep := if acq.1.st = .halfOpen then some acq.1.episode else none }],
-    seen := s.seen, serial := s.serial + 1,
+    falling := s.falling, seen := s.seen, serial := s.serial + 1,
     log := (s.log ++ acq.2.2.map (fun e => (s.now, e))) ++ [(s.now, CEv.innerCall f.c s.serial)] }
 
 theorem admitStep_ok (cfg : Cfg) (s : State) (f : Fresh) (hok : (tryAcquire cfg s.circ s.now).2.1 = true) :
@@ -380,10 +389,11 @@ theorem admitStep_ok (cfg : Cfg) (s : State) (f : Fresh) (hok : (tryAcquire cfg 
   unfold admitStep admitted emit
   simp [hok]
 
-/-- explicit form of a rejection -/
+/-- explicit form of a rejection: the open-circuit error, or the caller is handed to the fallback — in this
+very step, whatever else is going on (`s.falling`: other callers' fallbacks still pending) -/
 def rejected (cfg : Cfg) (s : State) (f : Fresh) : State :=
-  { s with fresh := s.fresh.eraseP (·.c == f.c),
-           log := s.log ++ [(s.now, CEv.result f.c (if cfg.fallback then Res.fallback f.c else Res.openCircuit))] }
+  if cfg.fallback then startFallback { s with fresh := s.fresh.eraseP (·.c == f.c) } f
+  else { s with fresh := s.fresh.eraseP (·.c == f.c), log := s.log ++ [(s.now, CEv.result f.c Res.openCircuit)] }
 
 theorem admitStep_rej (cfg : Cfg) (s : State) (f : Fresh) (hok : (tryAcquire cfg s.circ s.now).2.1 = false)
     (hc : (tryAcquire cfg s.circ s.now).1 = s.circ) (he : (tryAcquire cfg s.circ s.now).2.2 = []) :
@@ -392,12 +402,30 @@ theorem admitStep_rej (cfg : Cfg) (s : State) (f : Fresh) (hok : (tryAcquire cfg
   simp only [hok, hc, he]
   cases cfg.fallback <;> simp
 
+/-- handing a caller to its fallback: only quiet events, nothing the invariant mentions changes -/
+theorem startFallback_inv (cfg : Cfg) (s : State) (f : Fresh) (h : SInv cfg s) : SInv cfg (startFallback s f) := by
+  unfold startFallback
+  split
+  · exact sinv_quiet cfg s _ (by intro e he; simp at he; rcases he with rfl | rfl <;> rfl) h
+  · exact sinv_quiet cfg _ _ (by intro e he; simp at he; rw [he]; rfl) (sinv_congr cfg s _ h rfl rfl rfl rfl)
+
+theorem pollFalling_inv (cfg : Cfg) (s : State) (r : Falling) (h : SInv cfg s) : SInv cfg (pollFalling s r) := by
+  unfold pollFalling
+  split
+  · exact sinv_quiet cfg _ _ (by intro e he; simp at he; rw [he]; rfl) (sinv_congr cfg s _ h rfl rfl rfl rfl)
+  · exact h
+
+theorem dropFalling_inv (cfg : Cfg) (s : State) (r : Falling) (h : SInv cfg s) : SInv cfg (dropFalling s r) := by
+  unfold dropFalling
+  exact sinv_quiet cfg _ _ (by intro e he; simp at he; rw [he]; rfl) (sinv_congr cfg s _ h rfl rfl rfl rfl)
+
 theorem rejected_inv (cfg : Cfg) (s : State) (f : Fresh) (h : SInv cfg s) : SInv cfg (rejected cfg s f) := by
-  have hs : summ (rejected cfg s f).log = summ s.log := by
-    show summ (s.log ++ [_].map (fun e => (s.now, e))) = _
-    exact summ_quiet _ _ _ (by intro e he; simp at he; rw [he]; rfl)
-  exact ⟨h.circ, h.trials, h.eps, fun hst => by rw [hs]; exact h.calls hst,
-    fun hst => by rw [hs]; exact h.shield hst, by rw [hs]; exact h.target, by rw [hs]; exact h.trTime, h.clock⟩
+  unfold rejected
+  split
+  · exact startFallback_inv cfg _ f (sinv_congr cfg s _ h rfl rfl rfl rfl)
+  · have := sinv_quiet cfg { s with fresh := s.fresh.eraseP (·.c == f.c) } [CEv.result f.c Res.openCircuit]
+      (by intro e he; simp at he; rw [he]; rfl) (sinv_congr cfg s _ h rfl rfl rfl rfl)
+    exact this
 
 theorem admitted_inv (cfg : Cfg) (s : State) (f : Fresh) (hok : (tryAcquire cfg s.circ s.now).2.1 = true)
     (h : SInv cfg s) : SInv cfg (admitted cfg s f) := by
@@ -505,7 +533,7 @@ theorem stepS_inv (cfg : Cfg) (s : State) (op : Op) (h : SInv cfg s) : SInv cfg 
   cases op with
   | adv ms =>
     exact ⟨h.circ, h.trials, h.eps, h.calls, h.shield, h.target, h.trTime, Nat.le_trans h.clock (Nat.le_add_right _ _)⟩
-  | arrive c sc tag =>
+  | arrive c sc tag fb =>
     simp only [stepS]
     split
     · exact h
@@ -514,14 +542,18 @@ theorem stepS_inv (cfg : Cfg) (s : State) (op : Op) (h : SInv cfg s) : SInv cfg 
     simp only [stepS]
     split
     · exact pollFresh_inv cfg s _ h
-    · exact pollRunning_inv cfg s c h
+    · split
+      · exact pollFalling_inv cfg s _ h
+      · exact pollRunning_inv cfg s c h
   | drop c =>
     simp only [stepS]
     split
     · exact ⟨h.circ, h.trials, h.eps, h.calls, h.shield, h.target, h.trTime, h.clock⟩
     · split
-      · rename_i r hfind; exact dropRunning_inv cfg s c r hfind h
-      · exact h
+      · exact dropFalling_inv cfg s _ h
+      · split
+        · rename_i r hfind; exact dropRunning_inv cfg s c r hfind h
+        · exact h
   | forceOpen => exact transitionTo_manual_inv cfg s .opened (by simp) "force_open" h
   | forceClosed => exact transitionTo_manual_inv cfg s .closed (by simp) "force_closed" h
   | reset => exact reset_step_inv cfg s h
@@ -571,6 +603,22 @@ theorem releaseTrial_st (c : Circuit) (ep : Option Nat) : (releaseTrial c ep).st
 
 theorem emit_circ (s : State) (evs : List CEv) : (emit s evs).circ = s.circ := rfl
 
+theorem rejected_circ (cfg : Cfg) (s : State) (f : Fresh) : (rejected cfg s f).circ = s.circ := by
+  unfold rejected startFallback
+  split
+  · split <;> rfl
+  · rfl
+
+/-- polling a caller that waits for its fallback: at most its own result is appended, nothing else changes -/
+theorem pollFalling_frame (s : State) (r : Falling) :
+    (pollFalling s r).circ = s.circ ∧ (pollFalling s r).running = s.running ∧ (pollFalling s r).fresh = s.fresh ∧
+    (pollFalling s r).serial = s.serial ∧
+    ((pollFalling s r).log = s.log ∨ (pollFalling s r).log = s.log ++ [(s.now, CEv.result r.c (fbRes r.c r.out))]) := by
+  unfold pollFalling
+  split
+  · exact ⟨rfl, rfl, rfl, rfl, Or.inr rfl⟩
+  · exact ⟨rfl, rfl, rfl, rfl, Or.inl rfl⟩
+
 theorem pollRunning_opened (cfg : Cfg) (s : State) (c : Nat) (hst : s.circ.st = .opened) :
     (pollRunning cfg s c).circ.st = .opened := by
   unfold pollRunning
@@ -582,5 +630,59 @@ theorem pollRunning_opened (cfg : Cfg) (s : State) (c : Nat) (hst : s.circ.st = 
       · simp only [emit_circ]; exact record_opened_stays cfg _ _ _ _ _ hst
     · exact hst
   · exact hst
+
+end TR.Circuit
+
+namespace TR.Circuit
+
+/-! ## pending fallbacks are outside the breaker -/
+
+/-- the state with the callers that wait for their fallback forgotten -/
+def core (s : State) : State := { s with falling := [] }
+
+theorem emit_core (s : State) (evs : List CEv) : core (emit s evs) = emit (core s) evs := rfl
+
+theorem complete_core (cfg : Cfg) (s : State) (r : Caller) : complete cfg (core s) r = core (complete cfg s r) := by
+  unfold complete
+  split <;> rfl
+
+theorem pollRunning_core (cfg : Cfg) (s : State) (c : Nat) : pollRunning cfg (core s) c = core (pollRunning cfg s c) := by
+  unfold pollRunning
+  simp only [show (core s).running = s.running from rfl, show (core s).now = s.now from rfl]
+  cases findRunning s.running c with
+  | none => rfl
+  | some r =>
+    simp only
+    by_cases hc : s.now ≥ r.doneAt ∧ r.out ≠ Out.never
+    · rw [if_pos hc, if_pos hc]
+      exact complete_core cfg { s with running := s.running.eraseP (·.c == c) } r
+    · rw [if_neg hc, if_neg hc]
+
+theorem startFallback_core (s : State) (f : Fresh) : core (startFallback (core s) f) = core (startFallback s f) := by
+  unfold startFallback
+  by_cases hc : f.fb.lat = 0 ∧ f.fb.out ≠ .never
+  · rw [if_pos hc, if_pos hc]; rfl
+  · rw [if_neg hc, if_neg hc]; rfl
+
+theorem admitStep_core (cfg : Cfg) (s : State) (f : Fresh) :
+    core (admitStep cfg (core s) f).1 = core (admitStep cfg s f).1 ∧ (admitStep cfg (core s) f).2 = (admitStep cfg s f).2 := by
+  unfold admitStep
+  simp only [show (core s).circ = s.circ from rfl, show (core s).now = s.now from rfl]
+  by_cases hok : (tryAcquire cfg s.circ s.now).2.1 = true
+  · rw [if_pos hok, if_pos hok]; exact ⟨rfl, rfl⟩
+  · rw [if_neg hok, if_neg hok]
+    by_cases hfb : cfg.fallback = true
+    · rw [if_pos hfb, if_pos hfb]
+      exact ⟨startFallback_core (emit { s with circ := (tryAcquire cfg s.circ s.now).1, fresh := s.fresh.eraseP (·.c == f.c) } (tryAcquire cfg s.circ s.now).2.2) f, rfl⟩
+    · rw [if_neg hfb, if_neg hfb]; exact ⟨rfl, rfl⟩
+
+theorem pollFresh_core (cfg : Cfg) (s : State) (f : Fresh) : core (pollFresh cfg (core s) f) = core (pollFresh cfg s f) := by
+  have h := admitStep_core cfg s f
+  unfold pollFresh
+  simp only
+  rw [h.2]
+  split
+  · rw [← pollRunning_core, ← pollRunning_core, h.1]
+  · exact h.1
 
 end TR.Circuit
